@@ -885,9 +885,7 @@ func (p *Parser) parseIfStmt() *ast.IfStmt {
 		return nil
 	}
 
-	p.nextToken() // skip ")"
-
-	stmt.Consequence = p.parseBlockStmt()
+	stmt.Consequence = p.parseBody()
 
 	for p.peekTokenIs(token.ELSE_IF) {
 		alt := p.parseElseIfStmt()
@@ -928,20 +926,19 @@ func (p *Parser) parseElseIfStmt() *ast.ElseIfStmt {
 		return nil
 	}
 
-	p.nextToken() // skip ")"
+	tok := p.peekToken // the first token of the body
 
 	return &ast.ElseIfStmt{
-		Token:       p.curToken,
+		Token:       tok,
 		Condition:   condition,
-		Consequence: p.parseBlockStmt(),
+		Consequence: p.parseBody(),
 	}
 }
 
 func (p *Parser) parseAlternativeBlock() *ast.BlockStmt {
 	p.nextToken() // move to "@else"
-	p.nextToken() // skip "@else"
 
-	alt := p.parseBlockStmt()
+	alt := p.parseBody()
 
 	if p.peekTokenIs(token.ELSE_IF) {
 		p.newError(p.peekToken.ErrorLine(), fail.ErrElseifCannotFollowElse)
@@ -986,9 +983,7 @@ func (p *Parser) parseForStmt() *ast.ForStmt {
 		return nil
 	}
 
-	p.nextToken() // skip ")"
-
-	stmt.Block = p.parseBlockStmt()
+	stmt.Block = p.parseBody()
 
 	if p.peekTokenIs(token.ELSE) {
 		p.nextToken() // skip "@else"
@@ -1028,9 +1023,7 @@ func (p *Parser) parseEachStmt() *ast.EachStmt {
 		return nil
 	}
 
-	p.nextToken() // skip ")"
-
-	stmt.Block = p.parseBlockStmt()
+	stmt.Block = p.parseBody()
 
 	if p.peekTokenIs(token.ELSE) {
 		p.nextToken() // skip "@else"
@@ -1042,6 +1035,19 @@ func (p *Parser) parseEachStmt() *ast.EachStmt {
 	}
 
 	return stmt
+}
+
+// parseBody parses the block that follows the current token, which is
+// the ")" of a directive or "@else". The block can be empty, in that
+// case nothing is consumed.
+func (p *Parser) parseBody() *ast.BlockStmt {
+	if p.peekTokenIs(token.ELSE, token.ELSE_IF, token.END) {
+		return &ast.BlockStmt{Token: p.curToken}
+	}
+
+	p.nextToken() // move to the first token of the block
+
+	return p.parseBlockStmt()
 }
 
 func (p *Parser) parseBlockStmt() *ast.BlockStmt {
